@@ -29,6 +29,22 @@ type mutant struct {
 	Property string
 	Expect   []string
 	AnyRule  []string // seeded changes: one of these rules must report a violation
+	Neutral  bool     // behaviour-preserving refactor: the check must stay silent
+}
+
+// readNeutrals returns the behaviour-preserving refactors kept in
+// /verif/neutral/<Cxx-nK>/patch.diff (written by sub-agents playing a
+// maintainer; suite green, behaviour unchanged). They are the negative control:
+// the check of the property they were written against must not raise anything.
+func readNeutrals(dir string) []mutant {
+	ds, _ := filepath.Glob(filepath.Join(dir, "C*-n*", "patch.diff"))
+	sort.Strings(ds)
+	var ms []mutant
+	for _, d := range ds {
+		name := filepath.Base(filepath.Dir(d))
+		ms = append(ms, mutant{Path: d, Name: "neutral/" + name, Property: name[:3], Neutral: true})
+	}
+	return ms
 }
 
 // readSeeds returns the sub-agent seeded changes (/verif/seeded/<id>/patch.diff)
@@ -127,6 +143,7 @@ func selfValidate(res *RunResult, repo, verif string) {
 		return
 	}
 	ms = append(ms, seeds...)
+	ms = append(ms, readNeutrals(filepath.Join(verif, "neutral"))...)
 	for _, m := range ms {
 		if m.Property != res.Prop {
 			continue
@@ -153,6 +170,16 @@ func selfValidate(res *RunResult, repo, verif string) {
 			cmd := exec.Command(self, "check", "-prop", res.Prop, "-tier", "quick", "-repo", tmp, "-verif", verif, "-no-evidence")
 			out, _ := cmd.CombinedOutput()
 			text := string(out)
+			if m.Neutral {
+				for _, l := range strings.Split(text, "\n") {
+					if strings.HasPrefix(l, "OBL violated") || strings.HasPrefix(l, "OBL undecided") || strings.HasPrefix(l, "ERROR") {
+						res.Errs = append(res.Errs, fmt.Sprintf("self-validation: behaviour-preserving refactor %s raises a false alarm: %s", m.Name, truncate(l, 400)))
+						return
+					}
+				}
+				res.MutantsRun = append(res.MutantsRun, m.Name+": silent")
+				return
+			}
 			if len(m.AnyRule) > 0 {
 				found := false
 				for _, l := range strings.Split(text, "\n") {
